@@ -39,3 +39,26 @@ def subject_texts(tree, tseed, extra=(), limit=8):
             seen.add(t)
             res.append(t)
     return res
+
+
+STATES = ['plain', 'plain', 'compile', 'gcp_keep', 'gcp_discard']
+
+
+def apply_state(p, state):
+    """Put the instance into one of the cache states the API can produce (results must not depend on it)."""
+    if state == 'compile':
+        p.compile()
+    elif state == 'gcp_keep':
+        p.get_compiled_pattern(discard_after=False)
+    elif state == 'gcp_discard':
+        p.get_compiled_pattern(discard_after=True)
+
+
+def behaviour(p, text):
+    """Everything the public matching API says about `text` (used to compare an object with itself over time)."""
+    out = [p.has_match(text), p.is_exact_match(text), p.get_matches(text), p.get_matches_and_pos(text),
+           p.get_matches_with_context(text, 1, 2), p.get_captures(text), p.get_captures(text, False),
+           p.get_captures_and_pos(text, True, True), p.get_named_captures(text), p.get_named_captures_and_pos(text, False, False),
+           p.replace(text, '<>'), p.replace(text, '#', 1), p.replace(text, '', 2), p.split_by_match(text),
+           p.split_by_capture(text), p.split_by_capture(text, False)]
+    return out
